@@ -675,6 +675,9 @@ def r_frame(run, F, rule="R-FRAME"):
             reads = [t[1].split("::")[-1] for t in p.trace if is_call(t) and t[1].startswith(rty) and "::read_" in t[1]]
             r = p.ret
             hv = r[2][0] if (r[0] == "ctor" and r[1].endswith("::Ok") and r[2]) else None
+            if isinstance(hv, tuple) and hv[0] == "ctor" and hv[1] == "ipp::IppHeader" and isinstance(hv[2], dict) and set(hv[2]) == {"version", "operation_or_status", "request_id"}:
+                # the struct literal is what IppHeader::new builds (checked above: new stores its three arguments as given)
+                hv = ("call", "ipp::IppHeader::new", [hv[2]["version"], hv[2]["operation_or_status"], hv[2]["request_id"]], None)
             ok = reads == ["read_u16", "read_u16", "read_u32"] and is_call(hv, "ipp::IppHeader::new")
             if ok:
                 calls = [t for t in p.trace if is_call(t) and t[1].startswith(rty) and "::read_" in t[1]]
